@@ -879,6 +879,62 @@ theorem history_from_empty (totalOf : Nat → Nat) (htot : ∀ id, totalOf id < 
   history_within_total totalOf htot es [] (fun _ => Nat.zero_le _) hok
 
 
+/-! ### `GGML.GraphSize` inside the model -/
+
+/-- **`GraphSize` returns one KV figure per block** (the estimator indexes `kv[i]` for every block
+    that has tensors; a shorter slice would panic), for every architecture and every input -/
+theorem graphSize_kv_length (m : GMeta) (context batch p kvct : Nat) :
+    (graphSize m context batch p kvct).1.length = m.blocks := by
+  unfold graphSize kvOf
+  simp only
+  cases m.arch <;> simp
+
+/-- for figures below 2^53 (8 PiB) the float64 detour is exact: the default (f16) cache costs exactly
+    2 bytes per element, q8_0 one, q4_0 half (rounded down) -/
+theorem kvBytes_exact (x : Nat) (h : x < 9007199254740992) :
+    kvBytes 0 x = 2 * x ∧ kvBytes 1 x = x ∧ kvBytes 2 x = x / 2 := by
+  have hr : roundF64 x = x := by unfold roundF64; simp [h]
+  unfold kvBytes toU64
+  simp only [hr]
+  refine ⟨?_, ?_, ?_⟩
+  · split <;> omega
+  · split <;> omega
+  · split <;> omega
+
+/-- the estimator's input with the `GraphSize` part computed by the model from the file-level data:
+    `weights[i]` = size of `blk.i` if it has tensors -/
+def inpOfGraph (base : Inp) (m : GMeta) (weights : List (Option Nat)) (context batch p kvct : Nat) : Inp :=
+  { base with
+    blocks := weights.zip (graphSize m context batch p kvct).1
+    graphPartial := (graphSize m context batch p kvct).2.1
+    graphFull := (graphSize m context batch p kvct).2.2
+    gqa := m.heads / m.headsKV }
+
+/-- with `GraphSize` inside the model the layer bound reads in file terms: never more layers than
+    `block_count + 1` -/
+theorem layers_le_block_count (base : Inp) (m : GMeta) (weights : List (Option Nat)) (context batch p kvct : Nat)
+    (hw : weights.length = m.blocks) :
+    (estimate (inpOfGraph base m weights context batch p kvct)).layers ≤ m.blocks + 1 := by
+  have h := (layers_le (inpOfGraph base m weights context batch p kvct)).1
+  have hl : (inpOfGraph base m weights context batch p kvct).blocks.length = m.blocks := by
+    simp [inpOfGraph, List.length_zip, graphSize_kv_length, hw]
+  rw [hl] at h
+  exact h
+
+/-- a 4-block llama-shaped file: 4096-wide, 32 heads, 8 KV heads, vocabulary 32000 -/
+def exMeta : GMeta :=
+  { arch := .llama, blocks := 4, embedding := 4096, heads := 32, headsKV := 8, keyLen := none, valLen := none,
+    vocab := 32000, ffnGateExps := none, ff := 0, ffnGate1 := none, cross := [], ropeFreqs := 0, sliding := 0,
+    qkvBias := none }
+
+/-- non-vacuity / sanity: context 2048, batch 512: 8 MiB of f16 KV cache per layer (2048·(128+128)·8·2),
+    half of it with q8_0; the two graph figures the real `GraphSize` returns for this file -/
+example : (graphSize exMeta 2048 512 1 0).1 = [8388608, 8388608, 8388608, 8388608] ∧
+    (graphSize exMeta 2048 512 1 1).1 = [4194304, 4194304, 4194304, 4194304] ∧
+    (graphSize exMeta 2048 512 1 0).2 = (189833216, 171968512) ∧
+    roundF64 9007199254740993 = 9007199254740992 ∧ roundF64 9007199254740995 = 9007199254740996 := by decide
+
+
 /-! ### witnesses and non-vacuity -/
 
 /-- a one-block model on one GPU with 100 bytes free; `overhead` is the parameter -/
